@@ -312,9 +312,10 @@ def loop_oracle(case, r):
             nxt = ann[k + 1][0] if k + 1 < len(ann) else None
             if nxt is None:
                 # last step: adopted iff the result is its `next`
-                nv = len(zt) - m
+                # (both x and y are compared: a veto after an accepted zero step leaves nacc > moves)
                 xu = list(_np.ldexp(_np.array(zt[:n]), -_np.array(sc["vw"], dtype=int)))
-                moved = acc and zt != zf and xu == r["x"] and r["nacc"] > moves
+                yu = list(_np.ldexp(_np.array(zt[len(zt) - m:]), _np.array(sc["cw"], dtype=int) - sc["ow"])) if m else []
+                moved = acc and zt != zf and xu == r["x"] and yu == r["y"] and r["nacc"] > moves
                 if moved:
                     moves += 1
                     dts.append(trials[k][1])
